@@ -112,6 +112,19 @@ let () =
                (String.concat "," (List.map (fun (k, c) -> Printf.sprintf "%d:%d" k c) ks))
                (String.concat ";" cfg)
                (String.concat "," (List.map (fun (w, c) -> Printf.sprintf "%s:%d" w c) ws)))
+    | 'H' ->
+        (* H e e …|n|e e …   one harper-ls session history: e = r<id> (HarperRecordLint accepted) | h<index in handler_names>;
+           n = shutdown + a new server process; the last session is shut down too -> the record ids on the log, in order *)
+        let sess = ref [] and cur = ref [] in
+        List.iter (fun f ->
+          if f = "n" then (sess := List.rev !cur :: !sess; cur := []) else
+          List.iter (fun w ->
+            if String.length w >= 2 then
+              let v = int_of_string (String.sub w 1 (String.length w - 1)) in
+              cur := (if w.[0] = 'r' then Inl (n_of_int v) else Inr (nat_of_int v)) :: !cur)
+            (String.split_on_char ' ' f)) (split_on '|' body);
+        let ss = List.rev (List.rev !cur :: !sess) in
+        print_endline (String.concat " " (List.map (fun i -> string_of_int (int_of_n i)) (run_ls_history_src ss)))
     | 'B' ->
         (match split_on '|' body with
          | cap :: lens :: _ ->
